@@ -61,6 +61,21 @@ class Build:
         return rc == 0
 
 
+def write_coqproject():
+    """_CoqProject lists every .v file under theories/ (sorted); rewritten only when the listing changes."""
+    files = []
+    for root, _dirs, names in os.walk(THEORIES):
+        for n in names:
+            if n.endswith('.v') and not n.startswith('.'):
+                files.append(os.path.relpath(os.path.join(root, n), COQ))
+    text = '-Q theories DM\n' + '\n'.join(sorted(files)) + '\n'
+    cp = os.path.join(COQ, '_CoqProject')
+    old = open(cp).read() if os.path.exists(cp) else None
+    if old != text:
+        with open(cp, 'w') as f:
+            f.write(text)
+
+
 def build(clean=False):
     """Regenerate kernels from REPO and (re)build the Coq development."""
     t0 = time.time()
@@ -71,6 +86,7 @@ def build(clean=False):
         b.kernels = kernels.generate_all(REPO, os.path.join(THEORIES, 'Gen'))
         mk = os.path.join(COQ, 'Makefile')
         cp = os.path.join(COQ, '_CoqProject')
+        write_coqproject()
         if not os.path.exists(mk) or os.path.getmtime(mk) < os.path.getmtime(cp):
             rc, out = sh(['coq_makefile', '-f', '_CoqProject', '-o', 'Makefile'], 120, cwd=COQ)
             if rc != 0:
